@@ -230,6 +230,10 @@ pub struct Responder {
     pub yields: usize,
     /// forget request objects after an explicit reply instead of dropping them
     pub forget_after_reply: bool,
+    /// a worker that takes exactly one request, answers it and does not come back (several of
+    /// them wait in next_bind_request on one multiplexor at the same time)
+    #[serde(default)]
+    pub oneshot: bool,
 }
 #[derive(Serialize, Deserialize, Clone, Debug, PartialEq)]
 pub enum FaultKind {
@@ -392,6 +396,8 @@ pub struct BindLed {
     pub seen: [Vec<BindSeen>; 2],
     pub resp_pending: [Option<u64>; 2],
     pub resp_closed: [Option<u64>; 2],
+    /// number of next_bind_request calls currently waiting per endpoint
+    pub resp_waiting: [u32; 2],
 }
 #[derive(Default)]
 pub struct Ledger {
@@ -1261,9 +1267,19 @@ async fn run_async(plan: Plan, sched: Sched, record: bool) -> DuoRun {
             let mut n = 0usize;
             loop {
                 let inv = seq2.tick();
-                led2.borrow_mut().bind.resp_pending[me] = Some(inv);
+                {
+                    let mut l = led2.borrow_mut();
+                    l.bind.resp_pending[me] = Some(inv);
+                    l.bind.resp_waiting[me] += 1;
+                }
                 let r = cancel.run(m.next_bind_request()).await;
-                led2.borrow_mut().bind.resp_pending[me] = None;
+                {
+                    let mut l = led2.borrow_mut();
+                    l.bind.resp_waiting[me] -= 1;
+                    if l.bind.resp_waiting[me] == 0 {
+                        l.bind.resp_pending[me] = None;
+                    }
+                }
                 let now = seq2.tick();
                 let req = match r {
                     None => break,
@@ -1321,6 +1337,9 @@ async fn run_async(plan: Plan, sched: Sched, record: bool) -> DuoRun {
                     }
                 }
                 sim_yields(rsp2.yields).await;
+                if rsp2.oneshot {
+                    break;
+                }
             }
             // requests still parked when the responder stops are accepted now (the connection may be gone)
             for (_, idx, req) in later {
